@@ -187,6 +187,49 @@ pub fn record_c11(rec: &mut Recorder, seed: u64, thorough: bool) {
         }
         rec.emit(e);
     }
+    tiny_tail_c11(rec, &mut rng, thorough);
+}
+
+/// The extreme upper tail of the MEME-style table: background (61, 1, 1, 1) / 64, width 10 (bd^M = 2^60), scores near the
+/// maximum, whose exact tails are small integers over 2^56 (event field `sat`: saturating distribution in the specification).
+fn tiny_tail_c11(rec: &mut Recorder, rng: &mut impl Rng, thorough: bool) {
+    for it in 0..(if thorough { 24 } else { 8 }) {
+        // width 10 over (61, 1, 1, 1) / 64: a prefix of nine rare symbols has probability 2^-54, below the f64 epsilon
+        let m = 10;
+        let f = it % 4;
+        let spaced = it % 2 == 0;
+        let cells: Vec<Vec<i64>> = (0..m).map(|_| (0..4).map(|k| if k == f { rng.gen_range(-8..=0) }
+            else if spaced { [0i64, 36, 44, 80][rng.gen_range(0..4)] } else { rng.gen_range(0..=20) }).collect()).collect();
+        let mut bn = vec![1i64; 4];
+        bn[f] = 61;
+        let c = Case { cells, bn, bd: 64, g: G };
+        let dnf = 64f64.powi(m as i32);
+        let tl = tails(&c);
+        let r = guarded(|| {
+            let pssm = build(&c);
+            let dist = pssm.to_score_distribution();
+            let sf = dist.sf();
+            let mut mono = true; let mut inrange = true;
+            for i in 0..sf.len() { if !(0.0..=1.0).contains(&sf[i]) { inrange = false; } if i > 0 && sf[i] > sf[i - 1] { mono = false; } }
+            let mut qs: Vec<i64> = Vec::new();
+            for &(sc, nn) in tl.iter() { if nn < (1 << 20) { qs.push(sc); qs.push(sc - 1); qs.push(sc - 3); } }
+            qs.sort(); qs.dedup();
+            let pv: Vec<Value> = qs.iter().map(|&s4| {
+                let y = dist.pvalue(s4 as f32 / G as f32) * dnf;
+                json!([s4, if y < 8.0e6 { y.round() as i64 } else { 8388608 }, if (y - y.round()).abs() < 1e-6 { 1 } else { 0 }])
+            }).collect();
+            json!({"sf_len": sf.len(), "sf_mono": mono, "sf_inrange": inrange, "pv": pv, "inv": []})
+        });
+        rec.reset();
+        rec.class("extreme_upper_tail");
+        rec.nontrivial(&(c.cells.clone(), c.bn.clone()));
+        let mut e = json!({"ev":"dist","wild":"none","K":5,"G":G,"pssm":pssm_json(&c),"bn":bn5(&c),"bd":c.bd,"den":0,"sat":8388608});
+        match r {
+            Ok(v) => { e["ret"] = json!("ok"); for (k, x) in v.as_object().unwrap() { e[k] = x.clone(); } }
+            Err(msg) => { e["ret"] = json!("panic"); e["msg"] = json!(msg); }
+        }
+        rec.emit(e);
+    }
 }
 
 // ------------------------------------------------------------------------------------------ C12 / C13
@@ -236,6 +279,47 @@ fn tfm_case(rng: &mut impl Rng, it: usize) -> Case {
     gen_case(rng, m, it)
 }
 
+/// A regular symbol with a tiny but non-zero background frequency (2^-24) that carries the best score of every row: the
+/// top of the distribution consists of words holding it.  bd^M = 2^(24 M) leaves 32 bits: `sat` events, numerators clamped.
+fn tiny_frequency_c12(rec: &mut Recorder, rng: &mut impl Rng, thorough: bool) {
+    const CAP: f64 = 8388608.0;
+    for it in 0..(if thorough { 16 } else { 6 }) {
+        let m = 2 + it % 2;
+        let f = it % 4;
+        let cells: Vec<Vec<i64>> = (0..m).map(|_| (0..4).map(|k| if k == f { rng.gen_range(24..=40) } else { rng.gen_range(-10..=10) }).collect()).collect();
+        let mut bn: Vec<i64> = Vec::new();
+        let mut others = vec![(1i64 << 23) - 1, 1 << 22, 1 << 22].into_iter();
+        for k in 0..4 { bn.push(if k == f { 1 } else { others.next().unwrap() }); }
+        let c = Case { cells, bn, bd: 1 << 24, g: G };
+        let dnf = (2f64).powi(24 * m as i32);
+        let pssm = build(&c);
+        let hi2 = 2 * c.cells.iter().map(|r| *r.iter().max().unwrap()).sum::<i64>();
+        for dq in [0i64, 1, 3, 5, 7, 9, 12, 16, 24] {
+            let s8 = hi2 - dq;
+            let r = guarded(|| {
+                let mut t = TfmPvalue::new(&pssm);
+                let mut iters = Vec::new();
+                for (k, it) in t.approximate_pvalue(s8 as f64 / (2 * c.g) as f64).enumerate() {
+                    let a = (*it.range.start() * dnf).min(CAP);
+                    let b = (*it.range.end() * dnf).min(CAP);
+                    let gk = (1.0 / it.granularity).round() as i64;
+                    iters.push(json!({"k": k + 1, "ginv": gk, "pmin": a.round() as i64, "pmax": b.round() as i64,
+                                      "exact": if (a - a.round()).abs() < 1e-6 && (b - b.round()).abs() < 1e-6 {1} else {0}, "conv": it.converged}));
+                    if k >= 4 { break; }
+                }
+                iters
+            });
+            rec.reset();
+            rec.class("tfm_pvalue");
+            rec.class("regular_symbol_with_frequency_2^-24");
+            rec.nontrivial(&(c.cells.clone(), c.bn.clone(), s8));
+            let mut e = json!({"ev":"tfm_pvalue","wild":"none","K":5,"G":c.g,"pssm":pssm_json(&c),"bn":bn5(&c),"bd":0,"den":0,"sat":8388608,"s8":s8});
+            match r { Ok(v) => { e["ret"] = json!("ok"); e["iters"] = json!(v); } Err(msg) => { e["ret"] = json!("panic"); e["msg"] = json!(msg); e["iters"] = json!([]); } }
+            rec.emit(e);
+        }
+    }
+}
+
 pub fn record_c12(rec: &mut Recorder, seed: u64, thorough: bool) {
     let mut rng = rng(seed, 12);
     let n = if thorough { 260 } else { 60 };
@@ -281,6 +365,7 @@ pub fn record_c12(rec: &mut Recorder, seed: u64, thorough: bool) {
             rec.emit(e);
         }
     }
+    tiny_frequency_c12(rec, &mut rng, thorough);
 }
 
 pub fn record_c13(rec: &mut Recorder, seed: u64, thorough: bool) {
